@@ -65,6 +65,17 @@ func TestC08(t *testing.T) {
 					}
 				}
 			}
+			if base > 1<<58 {
+				base = st.base // an edge RTT of 2^62 became the baseline: stay inside the RTT range of the property
+				if nl > 1<<58 {
+					rep.Count("baseline-at-range-end")
+					continue
+				}
+			}
+			if lo < 0 || hi <= lo || hi > 1<<62 {
+				rep.Count("pair-out-of-range")
+				continue
+			}
 			inf := r.Pick(0, int64(scout.EstFloat()/2), int64(scout.EstFloat()), int64(scout.EstFloat())+2)
 			drop := r.Bool(20)
 			start := scout.Now + 1000
